@@ -10,6 +10,7 @@ fn lon_diff(a: f64, b: f64) -> f64 { let d = (a - b).rem_euclid(TWO_PI); d.min(T
 /// everything C17 says about one position, measured against the bridge
 pub fn proj_event(lon: f64, lat: f64, class: &str) -> Value {
   let f1 = face_of(1, lon, lat);
+  crate::prime::proj(lon, lat);
   let r = guarded(|| cdshealpix::proj(lon, lat));
   let (rx, ry) = ref_proj(lon, lat); // x in [0, 8)
   match r {
